@@ -5,7 +5,7 @@ P = "nested::verif_edge::"
 both = ("quick", "thorough"); th = ("thorough",)
 MANIFEST = dict(
     category="other",
-    text="Internal edge (delta_depth 1..3, every parent cell symbolic): length 4*2^d-4, all descendants, all on the border, closed walk with adjacent consecutive cells from the south corner through the east, north and west corners, no duplicates; sorted variant is its strictly increasing permutation; internal_corner / internal_edge_part / append_ variants return the matching cells. External edge, modular: (1) the direction under which each neighbour sees the cell -- the rule used by external_edge_generic/_struct with the tables direction_from_neighbour / edge_cell_direction_from_neighbour / direction_in_base_cell_border -- names exactly the shared edge/vertex (integer vertex-sharing oracle, all cells of depths 0..3 x 8 directions); (2) append_sorted_internal_edge_element appends exactly that corner/side of the neighbour. Bounded in delta_depth (<=3) and depth (<=3 for the direction rule).",
+    text="EVERY delta_depth 1..=29 at once (Verus unit edge_corners_verus): the corner helpers internal_corner_south/east/west/north and the masks x/y/xy_mask, cut out of the working tree on every run, return the descendant whose sub-cell index is 0 / all even bits / all odd bits / 4^delta-1, without overflow. In addition (Kani, bounded): Internal edge (delta_depth 1..3, every parent cell symbolic): length 4*2^d-4, all descendants, all on the border, closed walk with adjacent consecutive cells from the south corner through the east, north and west corners, no duplicates; sorted variant is its strictly increasing permutation; internal_corner / internal_edge_part / append_ variants return the matching cells. External edge, modular: (1) the direction under which each neighbour sees the cell -- the rule used by external_edge_generic/_struct with the tables direction_from_neighbour / edge_cell_direction_from_neighbour / direction_in_base_cell_border -- names exactly the shared edge/vertex (integer vertex-sharing oracle, all cells of depths 0..3 x 8 directions); (2) append_sorted_internal_edge_element appends exactly that corner/side of the neighbour. Bounded in delta_depth (<=3) and depth (<=3 for the direction rule).",
     note="The loop of external_edge_generic/_struct itself (Vec collect/sort of the neighbour map) is not verified end to end: symbolic execution did not finish; the selection rule is replicated in the harness from the same real table functions. Uses C04's neighbour contract and oracle assumptions.",
     technique="Verus (z3, bit-vector) contracts on the extracted mask / corner helpers for every delta_depth; Kani bounded harnesses (CBMC) on the real edge functions and direction tables against the integer vertex-sharing oracle",
 )
